@@ -48,6 +48,14 @@ def run(ctx: Ctx, driver: Driver):
         except Exception as e:  # noqa: BLE001
             out = "err " + type(e).__name__
         ctx.evaluations += 1
+        # oracle (HAP 5.6.2): M2 carries no Error, a Salt and a PublicKey, and no other step number - anything else ends the
+        # attempt (a reply without a State item is tolerated by the library on purpose; C04 documents that)
+        d = dict(items)
+        complete = d.get(6, b"\x02") == b"\x02" and 7 not in d and 2 in d and 3 in d
+        if out.startswith("ok") and not complete:
+            ctx.violation("setup/m2-accepted", f"M2 reply {[(k, len(v)) for k, v in items]} (type, length) lacks a required item or carries an error, yet part 1 went on with salt {out.split(' ')[1][:16]}...", {"stream": "m2", "items": [[k, hx(v)] for k, v in items]})
+        if out.startswith("ok") and complete and (bytes.fromhex(out.split(" ")[1]) if out.split(" ")[1] != "-" else b"") != d[2]:
+            ctx.violation("setup/m2-salt", "part 1 returned a salt other than the one the accessory sent", {"stream": "m2", "items": [[k, hx(v)] for k, v in items]})
         c1.append({"stream": "m2", "items": [[k, hx(v)] for k, v in items]})
         o1.append(out)
         l1.append("ps.m2 " + toks(items))
@@ -228,8 +236,121 @@ def run(ctx: Ctx, driver: Driver):
         exchange("honest-K0")
     ctx.sample({k: (v if len(str(v)) < 300 else str(v)[:300] + "...") for k, v in cases[0].items()})
     # wrong-code accessory: the model is given the reference server's K/M2 which the real client does not share - the outcome (AuthenticationError at M4) must still agree
+    discovery_level(ctx, rng, rb)
     compare_with_model(ctx, "setup", cases, outs, lines, driver, canon=canon_wrongcode)
     compare_with_model(ctx, "m5", m5cases, m5outs, m5lines, driver)
+
+
+class SetupAccessory:
+    """a conformant accessory for the whole pair-setup exchange (M1..M6), written from HAP 5.6 with harness.refacc"""
+
+    def __init__(self, pin, ident, rb):
+        self.pin, self.id, self.rb = pin, ident, rb
+        self.accepted = None  # (controller id, controller long-term public key) accepted in M5
+
+    def handle(self, items):
+        d = {int(k): bytes(v) for k, v in items}
+        st = d.get(6)
+        if st == b"\x01":
+            self.salt = self.rb(16)
+            self.srv = refacc.SrpServer(self.pin, self.salt, int.from_bytes(self.rb(32), "big"))
+            return [(6, b"\x02"), (3, refacc.PAD(self.srv.B)), (2, self.salt)]
+        if st == b"\x03":
+            self.srv.on_A(d[3])
+            if d.get(4) != self.srv.M1:
+                return [(6, b"\x04"), (7, b"\x02")]
+            return [(6, b"\x04"), (4, self.srv.M2)]
+        if st == b"\x05":
+            K = self.srv.K
+            ekey = refacc.hk(K, b"Pair-Setup-Encrypt-Salt", b"Pair-Setup-Encrypt-Info")
+            try:
+                sub = refacc.untlv(ChaCha20Poly1305(ekey).decrypt(b"\0\0\0\0PS-Msg05", d[5], b""))
+                cx = refacc.hk(K, b"Pair-Setup-Controller-Sign-Salt", b"Pair-Setup-Controller-Sign-Info")
+                ed25519.Ed25519PublicKey.from_public_bytes(sub[3]).verify(sub[10], cx + sub[1] + sub[3])
+            except Exception:  # noqa: BLE001
+                return [(6, b"\x06"), (7, b"\x02")]
+            self.accepted = (sub[1].decode(), sub[3])
+            ax = refacc.hk(K, b"Pair-Setup-Accessory-Sign-Salt", b"Pair-Setup-Accessory-Sign-Info")
+            sig = self.id.acc_ltsk.sign(ax + self.id.acc_id + self.id.acc_ltpk)
+            enc = ChaCha20Poly1305(ekey).encrypt(b"\0\0\0\0PS-Msg06", refacc.tlv([(1, self.id.acc_id), (3, self.id.acc_ltpk), (10, sig)]), b"")
+            return [(6, b"\x06"), (5, enc)]
+        return [(6, b"\x02"), (7, b"\x01")]
+
+
+def discovery_level(ctx, rng, rb):
+    """the transports' own pairing entry points: IpDiscovery.async_start_pairing / finish_pairing against a conformant
+    accessory, twice under the same alias (the accessory was reset in between: same identifier, new long-term key).
+    What is returned - and what the controller keeps under the alias - must be exactly the identity authenticated in
+    THIS exchange and the controller key THIS accessory accepted."""
+    import asyncio
+    from unittest.mock import MagicMock
+
+    from aiohomekit.characteristic_cache import CharacteristicCacheMemory
+    from aiohomekit.controller.ip.discovery import IpDiscovery
+
+    from harness import rcsim
+
+    async def pair_once(controller, alias, accessory, hosts):
+        class Conn:
+            is_connected = True
+
+            async def ensure_connection(self):
+                return None
+
+            async def post_tlv(self, target, body, expected=None):
+                return L(accessory.handle(body))
+
+            async def close(self):
+                return None
+        d = IpDiscovery.__new__(IpDiscovery)
+        d.controller = controller
+        d.description = rcsim.description(hosts)
+        d.connection = Conn()
+        finish = await d.async_start_pairing(alias)
+        return await finish(accessory.pin)
+
+    loop = asyncio.new_event_loop()
+    try:
+        for trial in range(ctx.budget(2, 12)):
+            controller = MagicMock()
+            controller._char_cache = CharacteristicCacheMemory()
+            controller.pairings = {}
+            acc_id = rng.choice([b"12:34:56:00:01:0A", b"3c:5a:b4:00:1f:e2"])
+            alias = "kitchen"
+            history = []
+            for round_ in range(rng.choice([2, 3])):
+                ident = refacc.Identity(rb, acc_id=acc_id)  # a reset accessory keeps its identifier and gets a new key pair
+                accessory = SetupAccessory(rng.choice(["031-45-154", "111-22-333"]), ident, rb)
+                ctx.evaluations += 1
+                case = {"stream": "discovery", "transport": "ip", "round": round_, "alias": alias}
+                try:
+                    obj = loop.run_until_complete(pair_once(controller, alias, accessory, [1 + round_]))
+                except Exception as e:  # noqa: BLE001
+                    ctx.violation("setup/discovery/rejected-genuine", f"IpDiscovery pairing round {round_ + 1} under alias '{alias}' failed with {type(e).__name__}: {e}", case)
+                    break
+                rec = obj.pairing_data
+                kept = controller.pairings.get(alias)
+                problems = []
+                if rec.get("AccessoryLTPK") != ident.acc_ltpk.hex() or rec.get("AccessoryPairingID") != acc_id.decode():
+                    problems.append("the accessory identity returned is not the one authenticated in this exchange")
+                if accessory.accepted is None or rec.get("iOSPairingId") != accessory.accepted[0] or rec.get("iOSDeviceLTPK") != accessory.accepted[1].hex():
+                    problems.append("the controller identity returned is not the one this accessory accepted")
+                else:
+                    sk = ed25519.Ed25519PrivateKey.from_private_bytes(bytes.fromhex(rec["iOSDeviceLTSK"]))
+                    if sk.public_key().public_bytes(**refacc.RAW) != accessory.accepted[1]:
+                        problems.append("the controller's private key does not match the public key the accessory accepted")
+                if kept is None or kept.pairing_data is not rec and dict(kept.pairing_data) != dict(rec):
+                    problems.append("the pairing kept under the alias differs from the one returned")
+                if rec.get("AccessoryIP") != rcsim.host(1 + round_):
+                    problems.append(f"the address recorded is {rec.get('AccessoryIP')}, pairing ran against {rcsim.host(1 + round_)}")
+                history.append(round_)
+                ctx.nontrivial.add(("discovery", "ip", round_))
+                ctx.dist["discovery:ip"] += 1
+                if problems:
+                    ctx.violation("setup/discovery/record", f"IpDiscovery pairing #{round_ + 1} under alias '{alias}' (accessory reset before it: same identifier, new long-term key): " + "; ".join(problems), case)
+                    break
+    finally:
+        loop.close()
 
 
 def canon_wrongcode(s):
